@@ -213,6 +213,26 @@ def main():
                         res.mismatch("evaluate_hodograph", rc, str(got), str(model[r]), "T regime")
                         res.failure("hodograph-wrong", "evaluate_hodograph degree %d at s=%s: |got-exact|=%.3e > %.3e" %
                                     (n, float(s), float(abs(got - spec)), float(tol)), rc)
+                # the public method, queried twice on one object: the first tangent is NORMALISED IN PLACE by the caller (ordinary
+                # numpy usage) before the second query, and a curve built from the same array is queried at another parameter;
+                # each answer must be the derivative at its own parameter (a cached array handed out without a copy, or a cache
+                # that ignores the parameter, shows here)
+                if dim <= 4 and n >= 1 and kw["regime"] == "T":
+                    cobj = bezier.Curve(arr, n)
+                    first = cobj.evaluate_hodograph(float(s))
+                    try:
+                        first *= 0.0
+                        first += 7.25
+                    except ValueError:
+                        pass                                   # a read-only result cannot be scribbled on
+                    for s2 in (s, Fr(1, 2) if s != Fr(1, 2) else Fr(1, 4)):
+                        again = np.asarray(cobj.evaluate_hodograph(float(s2)))
+                        for r in range(dim):
+                            spec2 = d1(nodes[r], Fr(float(s2)))
+                            if abs(Fr(float(again[r, 0])) - spec2) > 2 * (3 * n + 6) * U * d1_abs(nodes[r], Fr(float(s2))) + 4 * U * abs(spec2):
+                                res.failure("hodograph-wrong:second-query", "Curve.evaluate_hodograph degree %d at s=%s after the caller modified the "
+                                            "array returned by an earlier query: %r, exact derivative %s" % (n, float(s2), float(again[r, 0]), float(spec2)), rc)
+                                break
             elif kind == "curvature":
                 s = kw["s"]
                 n = len(nodes[0]) - 1
